@@ -20,7 +20,7 @@ func TestC02(t *testing.T) {
 		Assumptions: []string{"computational security of ChaCha20-Poly1305 is not judged; only what the reader returns is"},
 		NCases: func(tier string) int {
 			if tier == "thorough" {
-				return 12000
+				return 6000
 			}
 			return 360
 		},
